@@ -3,7 +3,7 @@
 
    A pattern expression is a record with a tag t and typed fields (every field name has one type
    everywhere):  v,k,r,o : Int   w : Seq(Int)   l : Seq(Expr)   p,a,b,c,n,st : Expr   f : STRING
-   wr : BOOLEAN   tp : Seq([sd : Int, d : Seq(Int)]).    r = INF means float('inf') repeats.
+   wr : BOOLEAN   tp : Seq([sd : Int, d : Seq(Int)]).    tl,q : Int.   r = INF means float('inf') repeats.
 
    D(p, N) = [s, ok]: s = the first N values of the sequence the *documentation* of the class gives
    (SuperCollider pattern documentation, sc3 argument order), defined by structural recursion.
@@ -181,13 +181,19 @@ GeomLoop(ss, i, cur, acc) ==
     ELSE IF ~Small(cur) THEN Res(acc, FALSE)
     ELSE GeomLoop(ss, i + 1, cur * ss.s[i][1], Append(acc, <<cur>>))
 
-RECURSIVE ConstLoop(_, _, _, _, _, _)
-ConstLoop(vs, sum, i, acc, out, N) ==
+\* Pconst(pattern, sum, tolerance): "close enough" = the running sum rounded UP to a multiple of the tolerance
+\* reaches the sum.  Numbers here are integers in the lattice unit of the expression (see "sc" below), so the
+\* rule is exact: ceil(x / T) * T >= S.  T = 0 stands for a tolerance finer than the lattice (the default 0.001
+\* with lattice steps >= 1/64): then the rule is x >= S.
+CeilDiv(a, b) == 0 - ((0 - a) \div b)
+Reached(x, sum, tl) == IF tl <= 0 THEN x >= sum ELSE CeilDiv(x, tl) * tl >= sum
+RECURSIVE ConstLoop(_, _, _, _, _, _, _)
+ConstLoop(vs, sum, tl, i, acc, out, N) ==
     IF i > Len(vs.s) THEN (IF Len(vs.s) >= N THEN Res(out, TRUE)
                            ELSE IF vs.ok THEN Res(Append(out, <<sum - acc>>), TRUE) ELSE Res(out, FALSE))
     ELSE LET nx == acc + vs.s[i][1] IN
-         IF nx >= sum THEN Res(Append(out, <<sum - acc>>), TRUE)
-         ELSE ConstLoop(vs, sum, i + 1, nx, Append(out, vs.s[i]), N)
+         IF Reached(nx, sum, tl) THEN Res(Append(out, <<sum - acc>>), TRUE)
+         ELSE ConstLoop(vs, sum, tl, i + 1, nx, Append(out, vs.s[i]), N)
 
 RECURSIVE IfLoop(_, _, _, _, _, _, _)
 IfLoop(cs, ts, fs, i, ct, cf, acc) ==
@@ -274,8 +280,12 @@ DD(p, N) ==
          LET vs == S(p.p, N + 1) IN
          IF ~AllNum(vs.s) THEN Bad
          ELSE Res([i \in 1..(Len(vs.s) - 1) |-> <<vs.s[i + 1][1] - vs.s[i][1]>>], vs.ok)
-    [] p.t = "const" ->                                      \* Pconst(pattern, sum): values until the sum is reached, then the rest
-         LET vs == S(p.p, N) IN IF ~AllNum(vs.s) THEN Bad ELSE ConstLoop(vs, p.k, 1, 0, <<>>, N)
+    [] p.t = "const" ->                                      \* Pconst(pattern, sum = k, tolerance = tl): values until the sum is reached (within tolerance), then the remainder
+         LET vs == S(p.p, N) IN IF ~AllNum(vs.s) THEN Bad ELSE ConstLoop(vs, p.k, p.tl, 1, 0, <<>>, N)
+    [] p.t = "sc" ->                                         \* the same expression on the lattice 1/q: every *value* (leaf numbers in value
+         D(p.p, N)                                           \* positions, series start, Pconst sum and tolerance) is value/q in the real
+                                                             \* pattern and every yielded number is read back times q; counts are not scaled.
+                                                             \* Only at the root and only over operations linear in the values.
     [] p.t = "switch" ->                                     \* Pswitch(list, which): embed list[which]
          LET H == 2 * N + 2 ws == S(p.a, H) IN SwLoop(p, ws, 1, N, <<>>, H)
     [] p.t = "switch1" ->                                    \* Pswitch1(list, which): one value of stream list[which]
